@@ -410,3 +410,236 @@ Proof.
   intros HG. apply (SS_NoDup (rlt (g_dir g))); [|apply gen_snapshots_sorted; assumption].
   intros x H. specialize (H eq_refl). lia.
 Qed.
+
+(** ** reading rows back: a fold of point adds *)
+Lemma parse_snapshots_links l : forall g,
+  parse_snapshots_from g (map (fun x => (fst (fst x), snd (fst x), snd x, None)) l) = add_links g l.
+Proof.
+  induction l as [|[[u v] t] r IH]; intros g; simpl; [reflexivity|].
+  destruct (add_interaction g u v (Some t) None) as [g' o]. destruct o; auto.
+Qed.
+
+Lemma io_step_nodes g u v s e g' : add_interaction g u v (Some s) e = (g', Done) ->
+  g_nodes g' = ensure_node v (ensure_node u (g_nodes g)) /\ g_attr g' = g_attr g.
+Proof.
+  unfold add_interaction. cbv zeta.
+  set (k := nk (g_dir g) u v).
+  set (f := match e with Some e' => if g_rem g then e' - 1 else s | None => s end).
+  destruct (aget peqb k (g_edges g)) as [[[a b] older]|] eqn:Hget.
+  - destruct (s <? a) eqn:E1; [intros H; inversion H|].
+    destruct (f <? s) eqn:E2; [intros H; inversion H; subst; split; reflexivity|].
+    destruct (b + 1 <? s) eqn:E3; [intros H; inversion H; subst; split; reflexivity|].
+    destruct (b <? f) eqn:E4; intros H; inversion H; subst; split; reflexivity.
+  - destruct (f <? s) eqn:E2; intros H; inversion H; subst; split; reflexivity.
+Qed.
+
+Lemma ensure_node_id n l : In n (map fst l) -> ensure_node n l = l.
+Proof. intros H. unfold ensure_node. apply zamem_In in H. rewrite H. reflexivity. Qed.
+
+Lemma add_links_nodes l : forall g H, add_links g l = RdOk H ->
+  (forall x, In x l -> In (fst (fst x)) (node_ids g) /\ In (snd (fst x)) (node_ids g)) ->
+  g_nodes H = g_nodes g /\ g_attr H = g_attr g.
+Proof.
+  induction l as [|[[u v] t] r IH]; intros g H Hrun Hin; cbn [add_links] in Hrun.
+  - inversion Hrun; subst. auto.
+  - destruct (add_interaction g u v (Some t) None) as [g' o] eqn:Hs. destruct o; try discriminate.
+    apply io_step_nodes in Hs. destruct Hs as (Hn & Ha).
+    destruct (Hin (u, v, t) (or_introl eq_refl)) as (Hu & Hv). simpl in Hu, Hv. unfold node_ids in Hu, Hv.
+    rewrite (ensure_node_id u) in Hn by assumption. rewrite (ensure_node_id v) in Hn by assumption.
+    destruct (IH g' H Hrun) as (Hn' & Ha').
+    + intros x Hx. unfold node_ids. rewrite Hn. apply Hin. right; assumption.
+    + split; congruence.
+Qed.
+
+Definition call_of (x : Z * Z * Z) : call := mkCall (fst (fst x)) (snd (fst x)) (snd x) None.
+
+(** point adds whose instants never go back on a pair are all accepted *)
+Lemma add_links_ok l : forall g h,
+  g_rem g = true -> Inv g h -> (forall c, In c h -> c_e c = None) ->
+  StronglySorted (rlt (g_dir g)) l ->
+  (forall c x, In c h -> In x l -> ckey (g_dir g) c = rkey (g_dir g) x -> c_t c <= snd x) ->
+  exists H, add_links g l = RdOk H /\ g_dir H = g_dir g /\ g_rem H = true /\ Inv H (h ++ map call_of l).
+Proof.
+  induction l as [|[[u v] t] r IH]; intros g h Hrem HI Hpt Hss Hle.
+  - exists g. simpl. rewrite app_nil_r. auto.
+  - cbn [add_links]. destruct (add_interaction g u v (Some t) None) as [g' o] eqn:Hs.
+    pose proof (step_edges _ _ _ _ _ _ _ Hs) as Hst. cbv zeta in Hst. destruct Hst as (Hd & Hr & Hst).
+    apply StronglySorted_inv in Hss. destruct Hss as (Hss & Hall). rewrite Forall_forall in Hall.
+    assert (Ho : o = Done).
+    { unfold call_end in Hst. set (k := nk (g_dir g) u v) in *.
+      destruct (HI k) as (Hc & Hm & _).
+      destruct (aget peqb k (g_edges g)) as [[[a b] older]|] eqn:Hg.
+      - assert (Hat : a <= t).
+        { specialize (Hm a). simpl in Hc. destruct Hc as (Hab & _).
+          assert (Hpa : pres (g_dir g) (g_rem g) h k a = true).
+          { rewrite <- Hm. simpl. unfold in_itv. simpl. apply orb_true_iff. left. lia. }
+          unfold pres in Hpa. apply existsb_exists in Hpa. destruct Hpa as (c & Hcin & Hcc).
+          apply andb_true_iff in Hcc. destruct Hcc as (Hk & Hsp). apply peqb_eq in Hk.
+          unfold in_span, span_end in Hsp. rewrite (Hpt c Hcin) in Hsp.
+          assert (c_t c <= t) by (apply (Hle c (u, v, t)); [assumption|left; reflexivity|exact Hk]).
+          lia. }
+        unfold merge_tl in Hst. destruct (t <? a) eqn:E; [lia|].
+        destruct (t <? t); [apply Hst|]. destruct (b + 1 <? t); [apply Hst|]. destruct (b <? t); apply Hst.
+      - unfold merge_tl in Hst. destruct (t <? t); apply Hst. }
+    subst o.
+    destruct (Inv_step' g h (mkCall u v t None) g' Done HI Hs) as (HI' & _). specialize (HI' eq_refl).
+    destruct (IH g' (h ++ [mkCall u v t None])) as (H & Hrun & HdH & HrH & HIH).
+    + congruence.
+    + exact HI'.
+    + intros c Hc. apply in_app_or in Hc. destruct Hc as [Hc|[<-|[]]]; auto.
+    + rewrite Hd. exact Hss.
+    + rewrite Hd. intros c x Hc Hx Hk. apply in_app_or in Hc. destruct Hc as [Hc|[<-|[]]].
+      * apply Hle; auto. right; assumption.
+      * simpl. specialize (Hall x Hx Hk). simpl in Hall. lia.
+    + exists H. split; [exact Hrun|]. split; [congruence|]. split; [exact HrH|].
+      rewrite <- app_assoc in HIH. exact HIH.
+Qed.
+
+Lemma Inv_no_edges g : g_edges g = [] -> Inv g [].
+Proof.
+  intros E k. rewrite E. simpl. split; [exact I|]. split; [reflexivity|].
+  split; [intros H; congruence|discriminate].
+Qed.
+
+Lemma pres_rows dir l k tau :
+  pres dir true (map call_of l) k tau = true <-> exists x, In x l /\ rkey dir x = k /\ snd x = tau.
+Proof.
+  unfold pres. rewrite existsb_exists. split.
+  - intros (c & Hc & H). apply in_map_iff in Hc. destruct Hc as (x & <- & Hx).
+    apply andb_true_iff in H. destruct H as (H1 & H2). apply peqb_eq in H1.
+    unfold in_span, span_end in H2. simpl in H2. exists x. split; [assumption|]. split; [exact H1|lia].
+  - intros (x & Hx & Hk & Ht). exists (call_of x). split; [apply in_map; assumption|].
+    apply andb_true_iff. split; [apply peqb_eq; exact Hk|]. unfold in_span, span_end. simpl. lia.
+Qed.
+
+(** the rows the snapshot writer lists, read back into a graph without interactions *)
+Lemma links_roundtrip g g0 : GoodG g -> g_edges g0 = [] -> g_rem g0 = true -> g_dir g0 = g_dir g ->
+  exists H, add_links g0 (gen_snapshots g) = RdOk H /\ g_dir H = g_dir g /\
+    forall u v tau, has_interaction H u v (Some tau) = has_interaction g u v (Some tau).
+Proof.
+  intros HG He Hr Hd.
+  destruct (add_links_ok (gen_snapshots g) g0 [] Hr (Inv_no_edges g0 He)) as (H & Hrun & HdH & HrH & HIH).
+  - intros c [].
+  - rewrite Hd. apply gen_snapshots_sorted; assumption.
+  - intros c x [].
+  - exists H. split; [exact Hrun|]. split; [congruence|]. intros u v tau.
+    simpl in HIH. destruct (HIH (nk (g_dir H) u v)) as (Hc & Hm & _).
+    rewrite io_hi_omem by assumption. rewrite Hm, HrH, HdH, Hd.
+    apply eq_iff_eq_true. rewrite pres_rows. split.
+    + intros ([[a b] t] & Hx & Hk & Ht). simpl in Ht. subst t.
+      apply gen_snapshots_spec in Hx; [|assumption]. destruct Hx as (_ & Hh). rewrite <- Hh.
+      symmetry. apply io_hi_key. exact Hk.
+    + intros Hh. pose proof (io_hi_some_none _ _ _ _ Hh) as Hn.
+      destruct (io_pairs_complete g u v (proj2 (proj2 HG)) Hn) as [Hin|(Hdf & Hin)].
+      * exists (u, v, tau). split; [apply gen_snapshots_spec; auto|]. split; reflexivity.
+      * exists (v, u, tau). split; [|split; [|reflexivity]].
+        -- apply gen_snapshots_spec; [assumption|]. split; [exact Hin|].
+           rewrite has_interaction_sym; assumption.
+        -- unfold rkey. simpl. rewrite Hdf. apply nk_sym.
+Qed.
+
+Theorem snapshots_roundtrip g : GoodG g ->
+  exists H, parse_snapshots (g_dir g) (map (fun x => (fst (fst x), snd (fst x), snd x, None)) (gen_snapshots g)) = RdOk H /\
+            g_dir H = g_dir g /\
+            forall u v tau, has_interaction H u v (Some tau) = has_interaction g u v (Some tau).
+Proof.
+  intros HG. unfold parse_snapshots. rewrite parse_snapshots_links.
+  apply links_roundtrip; auto.
+Qed.
+
+(** ** JSON node-link data *)
+Lemma fold_add_nodes l : forall g0, NoDup (map fst (g_nodes g0 ++ l)) ->
+  fold_left (fun g na => add_node g (fst na) (snd na)) l g0 = with_nodes g0 (g_nodes g0 ++ l).
+Proof.
+  induction l as [|[n a] r IH]; intros g0 Hnd; simpl.
+  - rewrite app_nil_r. destruct g0; reflexivity.
+  - assert (Em : amem Z.eqb n (g_nodes g0) = false).
+    { destruct (amem Z.eqb n (g_nodes g0)) eqn:E; [|reflexivity]. exfalso.
+      apply zamem_In in E. rewrite map_app in Hnd. simpl in Hnd. apply NoDup_remove_2 in Hnd.
+      apply Hnd. apply in_or_app. left; assumption. }
+    unfold add_node at 2. rewrite Em. rewrite IH.
+    + unfold with_nodes. simpl. rewrite <- app_assoc. reflexivity.
+    + simpl. rewrite <- app_assoc. exact Hnd.
+Qed.
+
+Theorem node_link_roundtrip g arg : GoodG g ->
+  exists H, node_link_graph (node_link_data g) arg = RdOk H /\ g_dir H = g_dir g /\ g_nodes H = g_nodes g /\
+            g_attr H = g_attr g /\
+            forall u v tau, has_interaction H u v (Some tau) = has_interaction g u v (Some tau).
+Proof.
+  intros HG. pose proof HG as (_ & _ & HI). pose proof HI as (_ & Hnn & _).
+  unfold node_link_graph, node_link_data. cbn [nl_directed nl_graph nl_nodes nl_links].
+  rewrite fold_add_nodes by (simpl; exact Hnn). cbn [g_nodes with_attr empty_graph app].
+  set (g1 := with_nodes _ _).
+  destruct (links_roundtrip g g1 HG) as (H & Hrun & HdH & Hpres); try reflexivity.
+  destruct (add_links_nodes _ _ _ Hrun) as (Hn & Ha).
+  { intros [[u v] t] Hx. simpl. apply gen_snapshots_spec in Hx; [|assumption]. destruct Hx as (_ & Hh).
+    apply (has_interaction_nodes g u v _ HI Hh). }
+  exists H. repeat split; auto.
+Qed.
+
+(** ** single rows: by definition the reader's step is add_interaction *)
+Lemma parse_snapshot_row g u v t e : parse_snapshots_from g [(u, v, t, e)] =
+  match add_interaction g u v (Some t) e with (g', Done) => RdOk g' | (_, o) => RdErr o end.
+Proof. simpl. destruct (add_interaction g u v (Some t) e) as [g' o]. destruct o; reflexivity. Qed.
+
+Lemma parse_interactions_plus g u v s : parse_interactions_from g [(u, v, true, s)] =
+  match add_interaction g u v (Some s) None with (g', Done) => RdOk g' | (_, o) => RdErr o end.
+Proof. simpl. destruct (add_interaction g u v (Some s) None) as [g' o]. destruct o; reflexivity. Qed.
+
+(** * Text-level round trip of one snapshot row (extra): the line the writer renders for (u, v, t) with a
+    one-character delimiter that is neither a digit, a minus sign nor whitespace is read back as that row *)
+Definition rchar (c : Z) : Prop := dchar c \/ c = 45.
+
+Lemma render_int_chars z : Forall rchar (render_int z).
+Proof.
+  unfold render_int. destruct (z <? 0) eqn:E.
+  - constructor; [right; reflexivity|].
+    eapply Forall_impl; [|apply pos_digits_chars; [lia|constructor]]. intros c Hc. left; assumption.
+  - eapply Forall_impl; [|apply pos_digits_chars; [lia|constructor]]. intros c Hc. left; assumption.
+Qed.
+
+Lemma render_int_notin z c : ~ rchar c -> ~ In c (render_int z).
+Proof. intros Hc Hin. pose proof (render_int_chars z) as H. rewrite Forall_forall in H. auto. Qed.
+
+Lemma split_on_app d a rest : ~ In d a -> forall cur,
+  split_on d (a ++ d :: rest) cur = (rev cur ++ a) :: split_on d rest [].
+Proof.
+  induction a as [|c r IH]; intros Hni cur; simpl.
+  - rewrite Z.eqb_refl, app_nil_r. reflexivity.
+  - destruct (c =? d) eqn:E; [exfalso; apply Hni; left; lia|].
+    rewrite IH by (intros H; apply Hni; right; assumption). simpl. rewrite <- app_assoc. reflexivity.
+Qed.
+
+Lemma split_on_last d a : ~ In d a -> forall cur, split_on d a cur = [rev cur ++ a].
+Proof.
+  induction a as [|c r IH]; intros Hni cur; simpl.
+  - rewrite app_nil_r. reflexivity.
+  - destruct (c =? d) eqn:E; [exfalso; apply Hni; left; lia|].
+    rewrite IH by (intros H; apply Hni; right; assumption). simpl. rewrite <- app_assoc. reflexivity.
+Qed.
+
+Lemma fields_clean m d l : l <> [] -> ~ In m l -> Forall (fun c => is_ws c = false) l ->
+  fields m d l = Some (split d l).
+Proof.
+  intros Hne Hm Hws. unfold fields. rewrite cut_comment_none by assumption. rewrite strip_id by assumption.
+  destruct l; [congruence|reflexivity].
+Qed.
+
+Theorem snap_line_render m d u v t : ~ rchar m -> ~ rchar d -> m <> d -> is_ws d = false ->
+  snap_line m (Some d) (render_snap_row d (u, v, t)) = LRow (u, v, t, None).
+Proof.
+  intros Hm Hd Hmd Hws. unfold render_snap_row, join. cbn [fst snd].
+  assert (Hrw : forall z, Forall (fun c => is_ws c = false) (render_int z)).
+  { intros z. eapply Forall_impl; [|apply render_int_chars]. intros c Hc. apply dchar_not_ws. exact Hc. }
+  unfold snap_line. rewrite fields_clean.
+  - unfold split. rewrite split_on_app by (apply render_int_notin; assumption).
+    rewrite split_on_app by (apply render_int_notin; assumption).
+    rewrite split_on_last by (apply render_int_notin; assumption). simpl.
+    rewrite !parse_int_render. reflexivity.
+  - intros E. apply app_eq_nil in E. destruct E as (_ & E). discriminate.
+  - intros Hin. repeat (apply in_app_or in Hin; destruct Hin as [Hin|Hin];
+      [revert Hin; apply render_int_notin; assumption|]; destruct Hin as [Hin|Hin]; [congruence|]).
+    revert Hin. apply render_int_notin; assumption.
+  - repeat (apply Forall_app; split; [apply Hrw|]; constructor; [assumption|]). apply Hrw.
+Qed.
